@@ -540,7 +540,7 @@ func TestHistories(t *testing.T) {
 	if _, err := isolated(); err != nil {
 		t.Fatalf("%v", err)
 	}
-	rec.Check(t, 80, 4000, func(t *rapid.T) {
+	rec.Check(t, 80, 600, func(t *rapid.T) {
 		items := rapid.SliceOfN(rapid.IntRange(0, poolSize()-1), 2, 12).Draw(t, "items")
 		for k := range items {
 			if rapid.IntRange(0, 2).Draw(t, "hot") == 0 {
@@ -600,7 +600,7 @@ func TestResultObjectsSurviveLaterParses(t *testing.T) {
 		_ = rec.Guard(func() { sp, _ = spec.Parse("pool.ebnf", strings.NewReader(specPool[i])) })
 		return sp
 	}
-	rec.Check(t, 300, 12000, func(t *rapid.T) {
+	rec.Check(t, 300, 3000, func(t *rapid.T) {
 		first := rapid.SampledFrom(hotItems()).Draw(t, "first")
 		if rapid.IntRange(0, 3).Draw(t, "any") == 0 {
 			first = rapid.IntRange(0, len(specPool)-1).Draw(t, "anyFirst")
@@ -724,7 +724,7 @@ var (
 
 // concurrentPhase processes pool items on 8-16 goroutines at once, several rounds.
 func concurrentPhase() {
-	rounds := rec.N(12, 640)
+	rounds := rec.N(12, 240)
 	rng := rec.RapidSeed() * 7919
 	next := func(n int) int {
 		rng = rng*6364136223846793005 + 1442695040888963407
